@@ -1,2 +1,3 @@
 void h_CheckGroup(void) { PedersenCommitmentScheme *self; _Bool r = PedersenCommitmentScheme__CheckGroup(self);
   __CPROVER_assert(!r, "REACHABILITY-CANARY (must fail): an accepted scheme exists"); }
+void h_TestMembership(void) { PedersenCommitmentScheme *self; mpz_srcptr c; PedersenCommitmentScheme__TestMembership(self, c); }
